@@ -2,6 +2,8 @@
 
 package parser
 
+import "strings"
+
 // Read-only accessors for unexported token flags, used by the external
 // verification harness (build tag verif). They do not change any behaviour.
 
@@ -16,3 +18,20 @@ func VerifURLHasError(u URL) bool { return u.flag&isErrorInURL != 0 }
 
 // VerifParseErrorKind returns the internal kind byte of a parse error.
 func VerifParseErrorKind(e ParseError) byte { return e.kind }
+
+// VerifSerializeCompound serializes a parsed rule or declaration with the
+// package's own (unexported) serializers. Returns false for other compounds.
+func VerifSerializeCompound(c Compound) (string, bool) {
+	var w strings.Builder
+	switch v := c.(type) {
+	case QualifiedRule:
+		v.serializeTo(&w)
+	case AtRule:
+		v.serializeTo(&w)
+	case Declaration:
+		v.serializeTo(&w)
+	default:
+		return "", false
+	}
+	return w.String(), true
+}
